@@ -116,6 +116,7 @@ type Exec struct {
 	mapUnlocked  map[*Map]map[string]int
 	harnessFn    map[*ssa.Function]bool
 	onceDone     map[*Value]bool
+	pools        map[*Value][]Value
 	unlockedCache int
 	curInstr     ssa.Instruction
 	stack        []*ssa.Function
